@@ -13,7 +13,12 @@ Import ListNotations.
 Open Scope R_scope.
 
 (* exact closed forms of every output (these pin each formula of the conversions): the
-   longitude is atan2 (y, x) and the latitude atan2 (z, |cos lat_in| sqrt (x^2 + y^2)) *)
+   longitude is atan2 (y, x) and the latitude atan2 (z, |cos lat_in| sqrt (x^2 + y^2)).
+   Stated for all reals, but the real-number instance has no domain check for tan: for an input
+   latitude with cos = 0 the term [tan] is Coq's 1 * / 0 and the equation, though true, says
+   nothing about the code's behaviour at an exact input pole (binary64 tan(pi/2) is 1.6e16).
+   Every geometric theorem below therefore carries the hypothesis -90 < input latitude < 90
+   (hence cos > 0); exact input poles are covered only by the binary64 search. *)
 Theorem C05_closed_forms :
   (forall al de ep, f_equatorial2ecliptical Rops (ang al) (ang de) (ang ep) =
      let y := sin (d2r al) * cos (d2r ep) + tan (d2r de) * sin (d2r ep) in let x := cos (d2r al) in
@@ -65,7 +70,10 @@ Theorem C05_ecl_rotation :
       /\ 0 <= al < 360 /\ -90 <= de <= 90).
 Proof. exact (conj eq2ecl_rotation ecl2eq_rotation). Qed.
 
-(* ... mutually inverse, as angles, for every obliquity *)
+(* ... mutually inverse, as angles, for every obliquity: for a start longitude in the
+   canonical range [0,360) (other longitudes: C05_inverse_directions) and when the intermediate
+   latitude is not a pole.  The hypothesis naming the first result is always satisfiable
+   (C05_ecl_rotation gives the values). *)
 Theorem C05_ecl_inverse :
   (forall al de ep lo la, 0 <= al < 360 -> -90 < de < 90 ->
     f_equatorial2ecliptical Rops (ang al) (ang de) (ang ep) = VTuple [ang lo; ang la] ->
@@ -168,9 +176,18 @@ Proof.
         (conj eq2gal_dot gal2eq_dot))))).
 Qed.
 
-(* angular separation: theta = 2 atan2 (sqrt h, sqrt hc) with hc = 1 - h, so its cosine is
-   the dot product of the two directions (cosine rule), 0 <= separation <= 180, symmetric *)
+(* angular separation.  Conjunct 1 is the code's own expression: theta = 2 atan2 (sqrt h,
+   sqrt hc), h = sep_h = hav dd + cos d1 cos d2 hav da, hc = sep_hc (C05_sep.v) for the stored
+   differences dd, da (reduced mod 360 by the Angle constructor); conjunct 4 (hc = 1 - h) is
+   about exactly the two expressions of conjunct 1.  Hence cos theta = dot product of the two
+   directions (cosine rule), 0 <= separation <= 180, symmetric. *)
 Theorem C05_separation :
+  (forall a1 d1 a2 d2,
+    -360 < a1 < 360 -> -360 < d1 < 360 -> -360 < a2 < 360 -> -360 < d2 < 360 ->
+    let dd := d2r (red360 (d1 + - d2)) in let da := d2r (red360 (a1 + - a2)) in
+    f_angular_separation Rops (ang a1) (ang d1) (ang a2) (ang d2)
+    = ang (r2d (Rlit 20 (-1) * atan2 (sqrt (sep_h dd (d2r d1) (d2r d2) da))
+                                      (sqrt (sep_hc dd (d2r d1) (d2r d2) da))))) /\
   (forall a1 d1 a2 d2,
     -360 < a1 < 360 -> -360 < d1 < 360 -> -360 < a2 < 360 -> -360 < d2 < 360 ->
     exists th, f_angular_separation Rops (ang a1) (ang d1) (ang a2) (ang d2) = ang th
@@ -184,25 +201,25 @@ Theorem C05_separation :
   (forall A1 D1 A2 D2,
     sep_hc (d2r (red360 (D1 + - D2))) (d2r D1) (d2r D2) (d2r (red360 (A1 + - A2)))
     = 1 - sep_h (d2r (red360 (D1 + - D2))) (d2r D1) (d2r D2) (d2r (red360 (A1 + - A2)))).
-Proof. exact (conj angsep_cos (conj angsep_sym sep_hc_value)). Qed.
+Proof. exact (conj angsep_closed (conj angsep_cos (conj angsep_sym sep_hc_value))). Qed.
 
 (* relative position angle.  The code forms da = a1 - a2 with one operand shifted by a whole
    turn first when |a1 - a2| > 180 (pa_w), removes whole turns by rounding (pa_da), and
    computes atan2 (cos d1 sin da, x) with x = sin (d1-d2) + 2 sin d2 cos d1 sin^2 (da/2) if
-   cos da >= 0 and x = sin (d1+d2) - 2 sin d2 cos d1 cos^2 (da/2) otherwise (pa_deg is exactly
-   that expression).  For canonical right ascensions da is in [-180,180] and the rounding term
+   cos da >= 0 and x = sin (d1+d2) - 2 sin d2 cos d1 cos^2 (da/2) otherwise (conjunct 1 is exactly
+   that expression; pa_w, pa_da, pa_x: C05_sep.v).  For canonical right ascensions da is in [-180,180] and the rounding term
    is 0; da is congruent to a1 - a2 mod 360; both forms of x are u1 . north2; the result
    equals Meeus' quotient form atan2 (sin da, cos d2 tan d1 - sin d2 cos da) when cos d1 > 0;
-   it negates when the right-ascension difference changes sign. *)
+   it negates when the two right ascensions are exchanged with the declinations kept (delta
+   alpha -> - delta alpha; this is NOT the exchange of the two bodies, whose position angles
+   are not negatives of each other on the sphere). *)
 Theorem C05_position_angle :
   (forall a1 d1 a2 d2,
     -360 < a1 < 360 -> -360 < a2 < 360 -> -360 < d1 < 360 -> -360 < d2 < 360 ->
-    f_relative_position_angle Rops (ang a1) (ang d1) (ang a2) (ang d2) = ang (pa_deg a1 d1 a2 d2)) /\
-  (forall a1 d1 a2 d2,
-    pa_deg a1 d1 a2 d2 =
-    r2d (atan2 (cos (d2r d1) * sin (d2r (pa_da (pa_w a1 a2))))
-               (pa_x (d2r (red360 (d1 + - d2))) (d2r (red360 (d1 + d2)))
-                     (d2r (pa_da (pa_w a1 a2))) (d2r d1) (d2r d2)))) /\
+    f_relative_position_angle Rops (ang a1) (ang d1) (ang a2) (ang d2)
+    = ang (r2d (atan2 (cos (d2r d1) * sin (d2r (pa_da (pa_w a1 a2))))
+                      (pa_x (d2r (red360 (d1 + - d2))) (d2r (red360 (d1 + d2)))
+                            (d2r (pa_da (pa_w a1 a2))) (d2r d1) (d2r d2))))) /\
   (forall a1 a2, 0 <= a1 < 360 -> 0 <= a2 < 360 ->
     pa_da (pa_w a1 a2) = pa_w a1 a2 /\ -180 <= pa_w a1 a2 <= 180) /\
   (forall a1 a2, exists k : Z, pa_da (pa_w a1 a2) = (a1 - a2) + 360 * IZR k) /\
@@ -211,7 +228,9 @@ Theorem C05_position_angle :
          (d2r D1) (d2r D2)
     = sin (d2r D1) * cos (d2r D2) - sin (d2r D2) * cos (d2r D1) * cos (d2r A1 - d2r A2)) /\
   (forall a1 d1 a2 d2, 0 < cos (d2r d1) ->
-    pa_deg a1 d1 a2 d2
+    r2d (atan2 (cos (d2r d1) * sin (d2r (pa_da (pa_w a1 a2))))
+               (pa_x (d2r (red360 (d1 + - d2))) (d2r (red360 (d1 + d2)))
+                     (d2r (pa_da (pa_w a1 a2))) (d2r d1) (d2r d2)))
     = r2d (atan2 (sin (d2r a1 - d2r a2))
                  (cos (d2r d2) * tan (d2r d1) - sin (d2r d2) * cos (d2r a1 - d2r a2)))) /\
   (forall a1 d1 a2 d2 p,
@@ -220,10 +239,45 @@ Theorem C05_position_angle :
     f_relative_position_angle Rops (ang a1) (ang d1) (ang a2) (ang d2) = ang p ->
     f_relative_position_angle Rops (ang a2) (ang d1) (ang a1) (ang d2) = ang (- p)).
 Proof.
-  split; [exact relpa_closed |]. split; [reflexivity |].
+  split; [exact relpa_closed |].
   split; [exact pa_da_range |]. split; [exact pa_da_cases |].
   exact (conj pa_x_value (conj relpa_quotient_form relpa_antisym)).
 Qed.
+
+(* there and back as DIRECTIONS, for every input longitude (canonical or not): the second
+   conversion returns the canonical representative of the start direction, same latitude.
+   Still needed: input latitude and intermediate latitude strictly between the poles (both
+   are inputs of a routine that takes tan of them). *)
+Theorem C05_inverse_directions :
+  (forall al de ep lo la, -90 < de < 90 ->
+    f_equatorial2ecliptical Rops (ang al) (ang de) (ang ep) = VTuple [ang lo; ang la] -> -90 < la < 90 ->
+    exists x y, f_ecliptical2equatorial Rops (ang lo) (ang la) (ang ep) = VTuple [ang x; ang y]
+      /\ uvec (d2r x) (d2r y) = uvec (d2r al) (d2r de) /\ y = de /\ 0 <= x < 360) /\
+  (forall lo la ep al de, -90 < la < 90 ->
+    f_ecliptical2equatorial Rops (ang lo) (ang la) (ang ep) = VTuple [ang al; ang de] -> -90 < de < 90 ->
+    exists x y, f_equatorial2ecliptical Rops (ang al) (ang de) (ang ep) = VTuple [ang x; ang y]
+      /\ uvec (d2r x) (d2r y) = uvec (d2r lo) (d2r la) /\ y = la /\ 0 <= x < 360) /\
+  (forall ha de ph az el, -90 < de < 90 ->
+    f_equatorial2horizontal Rops (ang ha) (ang de) (ang ph) = VTuple [ang az; ang el] -> -90 < el < 90 ->
+    exists x y, f_horizontal2equatorial Rops (ang az) (ang el) (ang ph) = VTuple [ang x; ang y]
+      /\ uvec (d2r x) (d2r y) = uvec (d2r ha) (d2r de) /\ y = de /\ -180 < x <= 180) /\
+  (forall az el ph ha de, -90 < el < 90 ->
+    f_horizontal2equatorial Rops (ang az) (ang el) (ang ph) = VTuple [ang ha; ang de] -> -90 < de < 90 ->
+    exists x y, f_equatorial2horizontal Rops (ang ha) (ang de) (ang ph) = VTuple [ang x; ang y]
+      /\ uvec (d2r x) (d2r y) = uvec (d2r az) (d2r el) /\ y = el /\ -180 < x <= 180) /\
+  (forall al de lo la, -90 < de < 90 ->
+    f_equatorial2galactic Rops (ang al) (ang de) = VTuple [ang lo; ang la] -> -90 < la < 90 ->
+    exists x y, f_galactic2equatorial Rops (ang lo) (ang la) = VTuple [ang x; ang y]
+      /\ uvec (d2r x) (d2r y) = uvec (d2r al) (d2r de) /\ y = de /\ 0 <= x < 360) /\
+  (forall lo la al de, -90 < la < 90 ->
+    f_galactic2equatorial Rops (ang lo) (ang la) = VTuple [ang al; ang de] -> -90 < de < 90 ->
+    exists x y, f_equatorial2galactic Rops (ang al) (ang de) = VTuple [ang x; ang y]
+      /\ uvec (d2r x) (d2r y) = uvec (d2r lo) (d2r la) /\ y = la /\ 0 <= x < 360).
+Proof.
+  exact (conj ecl_roundtrip_vec (conj equ_roundtrip_vec (conj hor_roundtrip_vec
+        (conj equ_h_roundtrip_vec (conj gal_roundtrip_vec equ_g_roundtrip_vec))))).
+Qed.
+
 
 (* circle_diameter, with the three separations s12, s13, s23 (degrees, 0..180) abstracted:
    the code takes the longest one as a (circ_sel), returns a when a >= sqrt(b^2+c^2) (right or
@@ -262,6 +316,7 @@ Redirect "C05_gal_inverse.assumptions" Print Assumptions C05_gal_inverse.
 Redirect "C05_dot_preserved.assumptions" Print Assumptions C05_dot_preserved.
 Redirect "C05_separation.assumptions" Print Assumptions C05_separation.
 Redirect "C05_position_angle.assumptions" Print Assumptions C05_position_angle.
+Redirect "C05_inverse_directions.assumptions" Print Assumptions C05_inverse_directions.
 Redirect "C05_circle_closed_form.assumptions" Print Assumptions C05_circle_closed_form.
 Redirect "C05_circle_bounds.assumptions" Print Assumptions C05_circle_bounds.
 Redirect "C05_circle_geometry.assumptions" Print Assumptions C05_circle_geometry.
